@@ -1198,7 +1198,106 @@ def job_funcmoment(job):
     return {"id": job["id"], "items": out}
 
 
-JOBS = {"funcmoment": job_funcmoment, "bayesnet": job_bayesnet, "dists": job_dists, "invariants": job_invariants, "session": job_session, "accepts": job_accepts, "analyze": job_analyze, "linrec": job_linrec, "explattice": job_explattice, "simulate": job_simulate}
+def job_synth(job):
+    """unsolvable-loop analysis: synthesized invariants (Q, f) and synthesized solvable loops"""
+    from inputparser import Parser
+    from program import normalize_program
+    from unsolvable_analysis import UnsolvInvSynthesizer, SolvLoopSynthesizer
+    res = {"id": job["id"], "kind": "synth"}
+    apply_settings(job.get("settings"))
+    points = job.get("points") or [{}]
+    N = job.get("N", 4)
+    deg = job.get("deg", 2)
+    try:
+        parsed = Parser().parse_string(job["text"])
+        variables, params = program_symbols(parsed)
+        symbols = sorted(params) + sorted(v + "0" for v in variables - initialised_vars(parsed))
+        full = []
+        for i, pt in enumerate(points):
+            pt = dict(pt)
+            for j, sname in enumerate(symbols):
+                pt.setdefault(sname, f"{1 + (i + j) % 3}/{1 + (i % 2)}")
+            full.append(pt)
+        points = full
+        res["points_used"] = points
+        res["parsed"] = [Exporter(variables, pt).program(parsed) for pt in points]
+        program = normalize_program(parsed)
+    except JobTimeout:
+        raise
+    except Exception as ex:
+        res.update(stage="normalize", exc=type(ex).__name__, msg=str(ex)[:300])
+        return res
+    res["defective"] = sorted(str(v) for v in program.defective_variables)
+    res["effective"] = sorted(str(v) for v in program.effective_variables)
+    if job.get("candidates"):
+        cands = [symengine.sympify(v) for v in job["candidates"]]
+    else:
+        cands = [v for v in program.defective_variables if v in program.original_variables]
+    res["candidates"] = sorted(str(v) for v in cands)
+    if not cands:
+        res["stage"] = "all-effective"
+        return res
+    nvars = sorted(str(v) for v in program.variables)
+
+    def export_solution(sol, tag):
+        inv, cf = sympy.sympify(sol[0]), sympy.sympify(sol[1])
+        extra = sorted(str(x) for x in (inv.free_symbols | cf.free_symbols)
+                       if str(x) not in nvars and str(x) != "n" and all(str(x) not in pt for pt in points))
+        out = {"tag": tag, "invariant": str(inv)[:400], "closed_form": str(cf)[:600], "free_coefficients": extra, "per_point": []}
+        for pi, pt in enumerate(points):
+            pt2 = dict(pt)
+            for j, e in enumerate(extra):
+                pt2[e] = str(1 + j + pi)
+            try:
+                poly = Exporter(nvars, pt2).poly(inv)
+                vals = [eval_closed_form(cf, pt2, n) for n in range(N + 1)]
+                out["per_point"].append({"poly": poly, "values": vals})
+            except Unsupported as ex:
+                out["per_point"].append({"unsupported": str(ex)})
+        return out
+    sols = []
+    for tag, kw in (("k=1", {"k": 1}), ("general", {})):
+        try:
+            ss = UnsolvInvSynthesizer.synth_inv(cands, deg, program, **kw)
+            for sol in (ss or []):
+                sols.append(export_solution(sol, tag))
+        except JobTimeout:
+            raise
+        except Exception as ex:
+            sols.append({"tag": tag, "exc": type(ex).__name__, "msg": str(ex)[:200]})
+    res["solutions"] = sols
+    # synthesized solvable loops
+    loops = []
+    try:
+        invariants, progs = SolvLoopSynthesizer.synth_loop(cands, deg, program)
+        for inv, sp in zip(invariants or [], progs):
+            try:
+                vs, _ = program_symbols(sp)
+                exported = []
+                for pt in points:
+                    extra = sorted(str(x) for x in sympy.sympify(inv[0]).free_symbols if str(x) not in nvars and str(x) not in pt)
+                    pt2 = dict(pt)
+                    for j, e in enumerate(extra):
+                        pt2[e] = str(1 + j)
+                    fs = set()
+                    for a in list(sp.initial) + list(sp.loop_body):
+                        fs |= {str(x) for x in a.get_free_symbols()}
+                    for e in sorted(fs - set(map(str, vs)) - set(pt2)):
+                        pt2[e] = "1"
+                    exported.append({"prog": Exporter(vs, pt2).program(sp), "inv_poly": Exporter(nvars, pt2).poly(sympy.sympify(inv[0]))})
+                loops.append({"invariant": str(inv[0])[:300], "vars": sorted(map(str, vs)), "per_point": exported,
+                              "text": str(sp)[:1500]})
+            except Unsupported as ex:
+                loops.append({"unsupported": str(ex)})
+    except JobTimeout:
+        raise
+    except Exception as ex:
+        loops.append({"exc": type(ex).__name__, "msg": str(ex)[:200]})
+    res["loops"] = loops
+    return res
+
+
+JOBS = {"synth": job_synth, "funcmoment": job_funcmoment, "bayesnet": job_bayesnet, "dists": job_dists, "invariants": job_invariants, "session": job_session, "accepts": job_accepts, "analyze": job_analyze, "linrec": job_linrec, "explattice": job_explattice, "simulate": job_simulate}
 
 
 def handle(job):
